@@ -60,6 +60,11 @@ def errKind : IoErr → String
   | .invalidData => "invalid_data"
   | .other => "other"
 
+def pollClass {α : Type} : Poll α → String
+  | .ready _ => "ok"
+  | .pending => "pending"
+  | .err _ => "err"
+
 def panicJ (site : String) : Json := Json.mkObj [("panic", strJ site)]
 
 def natsJ (l : List Nat) : Json := Json.arr (l.map natJ).toArray
@@ -81,7 +86,8 @@ def writeLike (s : Sess) (j : Json) (kind : String) : Sess × Json :=
         | .ready n => ([("r", strJ "ok"), ("n", natJ n)], { d1 with accepted := d1.accepted + n })
         | .pending => ([("r", strJ "pending")], d1)
         | .err e => ([("r", strJ "err"), ("kind", strJ (errKind e))], d1)
-      (s.set di d2, Json.mkObj (res ++ [("tw", traceJ o.trace), ("hdrs", natsJ hdrs), ("sent", natJ d2.sentTotal)]))
+      (s.set di d2, Json.mkObj (res ++ [("tw", traceJ o.trace), ("hdrs", natsJ hdrs), ("sent", natJ d2.sentTotal),
+        ("class", strJ ("write:" ++ pollClass o.res))]))
   else
     let r := if kind == "flush" then pollFlush script (flEv j) d.w else pollShutdown script (flEv j) d.w
     match r with
@@ -95,7 +101,7 @@ def writeLike (s : Sess) (j : Json) (kind : String) : Sess × Json :=
         | .pending => [("r", strJ "pending")]
         | .err e => [("r", strJ "err"), ("kind", strJ (errKind e))]
       (s.set di d1, Json.mkObj (res ++ [("tw", traceJ o.trace), ("hdrs", natsJ hdrs), ("sent", natJ d1.sentTotal),
-        ("inner", Json.bool fo.innerCalled)]))
+        ("inner", Json.bool fo.innerCalled), ("class", strJ (kind ++ ":" ++ pollClass o.res))]))
 
 def isRaw : WByte → Bool
   | .raw _ => true
@@ -123,7 +129,12 @@ def readOp (s : Sess) (j : Json) : Sess × Json :=
       | .pending => ([("r", strJ "pending")], d1)
       | .err e => ([("r", strJ "err"), ("kind", strJ (errKind e))], d1)
     let res := if opq then [("r", strJ "opaque-length-read")] else res
-    (s.set di d2, Json.mkObj (res ++ [("tr", traceJ o.trace)]))
+    let cls := match o.res with
+      | .ready [] => "eof"
+      | .ready _ => "data"
+      | .pending => "pending"
+      | .err _ => "err"
+    (s.set di d2, Json.mkObj (res ++ [("tr", traceJ o.trace), ("class", strJ ("read:" ++ cls))]))
 
 def tamperOf (j : Json) : Option Tamper :=
   let g := fun k => (getNat j k).getD 0
@@ -148,7 +159,8 @@ def tamperOp (s : Sess) (j : Json) : Sess × Json :=
     let fields : List (String × Json) :=
       [("applied", Json.bool o.applied), ("inflight", natJ d.wire.length), ("after", natJ o.d.wire.length)] ++
       o.fields.map (fun kv => (kv.1, natJ kv.2)) ++
-      (match o.hit with | some h => [("hit", strJ h)] | none => [])
+      (match o.hit with | some h => [("hit", strJ h)] | none => []) ++
+      [("class", strJ ("tamper:" ++ (getStr j "kind").getD "" ++ ":" ++ (if o.applied then "true" else "false")))]
     (s.set di o.d, Json.mkObj fields)
 
 def checkOp (s : Sess) (j : Json) : Sess × Json :=
